@@ -345,7 +345,7 @@ fn first_diff(
         // (the model's state is off from that line on: the rest of the case is not compared either)
         // (`typed3`, $747970656433, is a harness-only host function as well: its conversion messages
         // are checked by the nat engine's oracle)
-        let uses_pcall = engine.name() != "sem" && ops[..=i].iter().any(|o| o.contains("$7063616c6c") || o.contains("$747970656433") || o.contains("$67706f70726f7773"));
+        let uses_pcall = engine.name() != "sem" && ops[..=i].iter().any(|o| o.contains("$7063616c6c") || o.contains("$747970656433"));
         if is_model && (!engine.model_compared(&ops[i]) || y == "model-timeout" || uses_pcall) {
             continue;
         }
